@@ -453,6 +453,42 @@ class CallGraph:
             return set(s.wparams), (s.wglobal or s.user)
         return set(range(len(call["kids"]) - 1)), True
 
+    def call_wfields(self, unit, call, f=None):
+        """Field names a call may store to (transitively), or None when unknown
+        (external writer, user callback)."""
+        if not call.get("callee"):
+            if f is None:
+                return None
+            names = self.indirect_targets(f, call)
+            if not names:
+                return None
+            out = set()
+            for nm in names:
+                k = self.resolve(unit, nm)
+                if k is None:
+                    for u in self.units:
+                        if (u, nm) in self.funcs:
+                            k = (u, nm)
+                            break
+                if k is None:
+                    return None
+                out |= {fld for (_r, fld) in self.sum[k].wfields}
+                if self.sum[k].wderef:
+                    out.add("*")
+            return out
+        k = self.resolve(unit, call["callee"])
+        if k is None:
+            return None
+        s = self.sum[k]
+        # user callbacks (merge, dupsort, filters) cannot name the library's private records:
+        # they write only what is handed to them through arguments
+        if s.wglobal:
+            return None
+        out = {fld for (_r, fld) in s.wfields}
+        if s.wderef:
+            out.add("*")
+        return out
+
     def reachable(self, roots):
         """Transitive closure of resolved callees from a set of function keys."""
         seen = set()
